@@ -96,6 +96,8 @@ func init() {
 		ID: "C01",
 		Rules: []RuleSpec{
 			{"cache-ro", "no write (field, element, delete/clear/copy, or through a parameter-mutating callee) through a native cache obtained with GetROCache, on any path (isCacheRW idiom handled by boolean correlation)", ruleCacheRO},
+			{"cache-key-shape", "all keyed accesses of one native cache map use keys of the same shape (none mixes whole prefixed storage keys with prefix-stripped ones)", ruleCacheKeyShape},
+			{"derived-invalidation", "every state-changing writer of a cache field that NEO.computeCommitteeMembers reads marks the NEO cache dirty (votesChanged), since the recomputation is skipped otherwise", ruleDerivedInvalidation},
 			{"cache-copy", "Copy() of every native cache gives the new DAO layer its own copy of every map/slice/pointer field, except the tabled replace-only fields, which are never modified in place anywhere", ruleCacheCopy},
 		},
 		NotCovered: "equality of two replicas is never observed; arithmetic of rewards, epoch boundaries, what InitializeCache computes, flush timing, backend differences, third-party nondeterminism",
